@@ -159,4 +159,16 @@ ANALYSES = {
     "target_CL_noset": lambda sc, n: sc.target_CL(CL=0.4, set_state=False,
                                                   control_state={k: float(v) for k, v in sc._airplanes[n].current_control_state.items()}),
 }
-SINGLE_ONLY = ("pitch_trim_noset", "pitch_trim_orient_noset", "target_CL_noset", "pitch_trim", "pitch_trim_orient", "target_CL")
+# the same analyses for every aircraft of the scene at once / for a list of names / with defaulted arguments
+ANALYSES.update({
+    "stability_derivatives_all": lambda sc, n: sc.stability_derivatives(**ALL_FRAMES),
+    "damping_derivatives_all": lambda sc, n: sc.damping_derivatives(**ALL_FRAMES),
+    "control_derivatives_all": lambda sc, n: sc.control_derivatives(**ALL_FRAMES),
+    "state_derivatives_all": lambda sc, n: sc.state_derivatives(),
+    "aero_center_all": lambda sc, n: sc.aero_center(),
+    "derivatives_list": lambda sc, n: sc.derivatives(aircraft=list(sc._airplanes), **ALL_FRAMES),
+    "target_CL_noset_default_controls": lambda sc, n: sc.target_CL(CL=0.4, set_state=False),
+})
+MULTI_PREFERRED = ("stability_derivatives_all", "damping_derivatives_all", "control_derivatives_all", "state_derivatives_all", "aero_center_all",
+                   "derivatives_list")
+SINGLE_ONLY = ("target_CL_noset_default_controls", "pitch_trim_noset", "pitch_trim_orient_noset", "target_CL_noset", "pitch_trim", "pitch_trim_orient", "target_CL")
